@@ -667,6 +667,16 @@ fn replay(path: &std::path::Path, e: &mut Engine) {
           None => e.out.emit(&line, "bad-op"),
         }
       }
+      ["builder.oracle.feeformula", bits, _, _] => {
+        // the model side compares the announced table of this rate with the closed formula
+        match u64::from_str_radix(bits, 16) {
+          Ok(b) if FeeRate::try_from(f64::from_bits(b)).is_ok() => {
+            e.announce(b);
+            e.out.emit(&line, "true");
+          }
+          _ => e.out.emit(&line, "bad-op"),
+        }
+      }
       // an oracle line carries the implementation's outcome; the model side decides
       [op, ..] if op.starts_with("builder.oracle.") => e.out.emit(&line, "true"),
       _ => e.out.emit(&line, "bad-op"),
